@@ -53,6 +53,9 @@ type ClientConnConfig struct {
 	PreparedCache PreparedCache
 	Handler       EventHandler
 	Logger        *zap.Logger
+	// Compression is the compression type that will be requested by Handshake. The codec is chosen from it when
+	// the connection is created because the connection starts decoding frames as soon as it is connected.
+	Compression string
 }
 
 type ClientConn struct {
@@ -65,17 +68,26 @@ type ClientConn struct {
 	closing       bool
 	closingMu     *sync.RWMutex
 	codec         frame.RawCodec
+	compression   string
 }
 
 // ConnectClient creates a new connection to an endpoint within a downstream cluster using TLS if specified.
 func ConnectClient(ctx context.Context, endpoint Endpoint, config ClientConnConfig) (*ClientConn, error) {
+	codec := codecs.CustomRawCodec
+	if config.Compression != "" {
+		var ok bool
+		if codec, ok = codecs.CustomRawCodecsWithCompression[strings.ToLower(config.Compression)]; !ok {
+			return nil, fmt.Errorf("invalid compression type: %s", config.Compression)
+		}
+	}
 	c := &ClientConn{
 		pending:       newPendingRequests(MaxStreams),
 		eventHandler:  config.Handler,
 		closingMu:     &sync.RWMutex{},
 		preparedCache: config.PreparedCache,
 		logger:        GetOrCreateNopLogger(config.Logger),
-		codec:         codecs.CustomRawCodec,
+		codec:         codec,
+		compression:   config.Compression,
 	}
 	var err error
 	c.conn, err = Connect(ctx, endpoint, c)
@@ -94,10 +106,11 @@ func (c *ClientConn) Handshake(ctx context.Context, version primitive.ProtocolVe
 		key := startupKeysAndValues[i]
 		value := startupKeysAndValues[i+1]
 		if strings.EqualFold("COMPRESSION", key) {
-			if codec, ok := codecs.CustomRawCodecsWithCompression[strings.ToLower(value)]; ok {
-				c.codec = codec
-			} else {
+			if _, ok := codecs.CustomRawCodecsWithCompression[strings.ToLower(value)]; !ok {
 				return version, fmt.Errorf("invalid compression type: %s", value)
+			}
+			if !strings.EqualFold(value, c.compression) {
+				return version, fmt.Errorf("compression type %s was not configured when connecting", value)
 			}
 		}
 	}
